@@ -131,7 +131,9 @@ func checkC02(tier, replay string) int {
 		}
 	}
 	ctx.Cov["layout_swap_control"] = fmt.Sprintf("%d of %d operands with differing halves are decided wrongly when the data layout is swapped (expected: all)", swapSeen, swapTried)
-	if swapSeen != swapTried {
+	if swapSeen != swapTried && ctx.NumViolations() == 0 {
+		// (with violations already recorded the library's word selection is broken, which is what makes the control fail:
+		// they are reported below; without any, the harness itself cannot tell the two layouts apart and says so)
 		fmt.Println("harness self-check failed: layout swap not observable")
 		return 2
 	}
